@@ -329,6 +329,9 @@ const OUTCOME_SET_CAP: usize = 4_000_000;
 
 /// Explore all scenarios; scenarios whose declared lock elision turned out to be unsound (a
 /// second task locked an elided mutex) are explored again with elision off.
+/// see `explore`: name of the OS threads that run executions
+pub const ADVERSARIAL_THREAD_NAME: &str = "store-pool_thread_0";
+
 pub fn explore(
     scenarios: Vec<Scenario>,
     cfg: &Cfg,
@@ -408,7 +411,14 @@ fn explore_round(
     let shared_ref = &shared;
     std::thread::scope(|sc| {
         for _ in 0..workers {
-            sc.spawn(move || worker(cells_ref, shared_ref, cfg, is_known, t0, workers));
+            // The OS threads that carry the executions are named like a pool worker of a store
+            // with the default name: `std::thread::current()` is not switched by the hooks, so
+            // code that takes a thread's *name* for its identity sees, in every execution, the
+            // legitimate environment "this call runs on a pool thread of a same-named store".
+            std::thread::Builder::new()
+                .name(ADVERSARIAL_THREAD_NAME.to_string())
+                .spawn_scoped(sc, move || worker(cells_ref, shared_ref, cfg, is_known, t0, workers))
+                .expect("spawn explorer worker");
         }
     });
     let mut stats: Vec<ScenarioStats> = cells
